@@ -315,6 +315,9 @@ def run_unit(unit, acc):
                 for ln in (0, 1, 2, 3, 4):
                     for nonnum in (False, True):
                         check_case(dict(kind="frame_config", n=n, which=which, length=ln, nonnum=nonnum), acc)
+                        for eval_n in (1, 2, 3, 4):
+                            if eval_n != n and not nonnum:
+                                check_case(dict(kind="frame_config", n=n, which=which, length=ln, nonnum=nonnum, eval_n=eval_n), acc)
 
 
 def _res_dir():
@@ -503,8 +506,10 @@ def check_case(case, acc):
     else:
         n, which, ln, nonnum = case["n"], case["which"], case["length"], case["nonnum"]
         labels = ["car", "pedestrian", "bicycle"][:n]
+        ne = case.get("eval_n", n)     # the evaluator's own number of target labels (the frame configuration may name fewer / other labels)
+        elabels = ["car", "pedestrian", "bicycle", "truck"][:ne]
         cfg = copy.deepcopy(BASE3D)
-        cfg.update(evaluation_task="detection", target_labels=labels, min_point_numbers=[0] * n, max_matchable_radii=None,
+        cfg.update(evaluation_task="detection", target_labels=elabels, min_point_numbers=[0] * ne, max_matchable_radii=None,
                    plane_distance_thresholds=[1.0])
         cfg = {a: b for a, b in cfg.items() if b is not None}
         ec = PerceptionEvaluationConfig(["/nonexistent"], "base_link", _res_dir(), cfg)
@@ -535,7 +540,7 @@ def check_case(case, acc):
             got, exposed = "err:" + type(ex).__name__, None
         acc.compared()
         valid = ln == n and not nonnum
-        acc.state(("frame_config", n, which, ln, nonnum, got[:3]), nontrivial=not valid)
+        acc.state(("frame_config", n, ne, which, ln, nonnum, got[:3]), nontrivial=not valid)
         if got == "ok" and exposed is not None and (len(exposed) != n or not all(isnum(e) for e in exposed)):
             acc.violation("frame-config:length:" + which, "%s accepted a per-label list %r for %d target labels" % (
                 "PerceptionPassFailConfig" if which == "thr" else "CriticalObjectFilterConfig", exposed, n), case)
